@@ -135,3 +135,80 @@ func H14_out_WriteBits() {
 		vhReach("new-bit-checked")
 	}
 }
+
+// H14_out_WriteBit: one WriteBit from an arbitrary valid state appends exactly the low bit of its argument.
+func H14_out_WriteBit() {
+	L := vhParam("L", 1024)
+	bs, sink := vhOutState(L, L)
+	v := vhInt("bit")
+	p := vhU64("probe")
+	a0 := vhAlphaLen(bs, sink)
+	vhAssume(p <= a0)
+	var pre uint64
+	if p < a0 {
+		pre = vhAlphaBit(bs, sink, p)
+	}
+	n0 := sink.n
+	panicked := vhCatch(func() { bs.WriteBit(v) })
+	vhAssert(!panicked, "no-panic")
+	vhAssert(vhOutInv(bs, sink, L), "invariant-post")
+	vhAssert(bs.Written() == a0+1, "written-advances-by-1")
+	vhAssert(vhAlphaLen(bs, sink) == a0+1, "alpha-len")
+	vhAssert(sink.n >= n0, "sink-append-only")
+	if sink.n > n0 {
+		vhReach("flushed")
+	}
+	if p < a0 {
+		vhAssert(vhAlphaBit(bs, sink, p) == pre, "old-bits-preserved")
+	} else {
+		vhAssert(vhAlphaBit(bs, sink, p) == uint64(v&1), "new-bit-is-arg")
+		vhReach("new-bit-checked")
+	}
+}
+
+// H14_out_WriteArray: one WriteArray(bits, count) with count <= K bits from an arbitrary valid state.
+// Loop bounds (derived from the code, K = param): 256-bit loop <= K/256, 64-bit loop <= 3 (after the 256 loop
+// remaining < 256), byte loops <= 8, aligned flush loop <= K/8/(L-8)+1.
+func H14_out_WriteArray() {
+	L := vhParam("L", 1024)
+	K := vhParam("K", 135)
+	bs, sink := vhOutState(L, 3*L)
+	nbytes := vhInt("len(bits)")
+	vhAssume(nbytes >= 0 && nbytes <= (K+7)/8+1)
+	bits := vhArb("bits", nbytes)
+	cnt := vhUint("count")
+	vhAssume(cnt <= uint(K))
+	p := vhU64("probe")
+	a0 := vhAlphaLen(bs, sink)
+	vhAssume(p < a0+uint64(K))
+	var pre uint64
+	if p < a0 {
+		pre = vhAlphaBit(bs, sink, p)
+	}
+	n0 := sink.n
+	var ret uint
+	panicked := vhCatch(func() { ret = bs.WriteArray(bits, cnt) })
+	if cnt > uint(nbytes)<<3 {
+		vhReach("count>len")
+		vhAssert(panicked, "count>len-must-panic")
+		vhAssert(sink.n == n0 && vhAlphaLen(bs, sink) == a0, "count>len-state-untouched")
+		return
+	}
+	vhAssert(!panicked, "no-panic")
+	vhAssert(ret == cnt, "returns-count")
+	vhAssert(vhOutInv(bs, sink, L), "invariant-post")
+	vhAssert(bs.Written() == a0+uint64(cnt), "written-advances-by-count")
+	vhAssert(vhAlphaLen(bs, sink) == a0+uint64(cnt), "alpha-len")
+	vhAssert(sink.n >= n0, "sink-append-only")
+	if sink.n > n0 {
+		vhReach("flushed")
+	}
+	if p < a0 {
+		vhAssert(vhAlphaBit(bs, sink, p) == pre, "old-bits-preserved")
+	} else if p < a0+uint64(cnt) {
+		k := p - a0
+		want := uint64(bits[k>>3]>>(7-(k&7))) & 1
+		vhAssert(vhAlphaBit(bs, sink, p) == want, "new-bits-are-array-bits")
+		vhReach("new-bit-checked")
+	}
+}
